@@ -245,8 +245,10 @@ def is_int_insertion(fn, v):
 
 
 def decode_path_functions(fb):
-    roots = ['ebusd::Message::decodeLastData', 'ebusd::Message::decodeJson', 'ebusd::Message::decodeLastDataNumField',
-             'ebusd::ChainedMessage::decodeLastData']
+    # value decoding only; definition dumping (decodeJson with OF_DEFINITION -> dump) belongs to C19
+    roots = ['ebusd::Message::decodeLastData', 'ebusd::Message::decodeLastDataNumField',
+             'ebusd::ChainedMessage::decodeLastData', 'ebusd::DataField::read', 'ebusd::SingleDataField::read',
+             'ebusd::DataFieldSet::read']
     reach = fb.reachable_from(roots)
     # virtual readSymbols / read overrides reached through the base class
     return reach
